@@ -153,8 +153,10 @@ func HarnessC10Names() {
 	if !zzvrt.S2OK(h) {
 		zzvrt.Note(zzvrt.S2Errors(h))
 		zzvrt.Check("C10.names.compiles", false)
+		zzvrt.Check("C14.names.distinct-schema-types-get-distinct-type-names", false)
 		return
 	}
+	zzvrt.Check("C14.names.distinct-schema-types-get-distinct-type-names", true)
 	d := zzvrt.NewDoc()
 	zzTypeCorrectObject(d)
 	f := zzAllTrue()
